@@ -1,7 +1,7 @@
 (* Bridge (property C20): what was re-read from components/guns/grpc/**.go (Gen/GrpcDialGen.v) is what
    the wire model (Model/GrpcWire.v) assumes about the source. *)
 From Coq Require Import List NArith Bool.
-From PV Require Import Model.GrpcCall Model.GrpcWire Model.GrpcTime Gen.GrpcDialGen.
+From PV Require Import Model.GrpcCall Model.GrpcWire Model.GrpcTime Model.GrpcPool Gen.GrpcDialGen.
 Import ListNotations.
 
 (* every dial option of MakeGRPCConnect is one that does not touch calls, so the connection policy
@@ -33,4 +33,10 @@ Proof. reflexivity. Qed.
 
 Lemma deadline_is_per_call :
   deadline_scope gen_timeout_sites (map fst gen_invoke_call_options) = Some PerCall.
+Proof. vm_compute. reflexivity. Qed.
+
+(* core/engine/instance.go gives an acquired ammo object back to its provider exactly ONCE: the deferred
+   provider.Release of instance.Run and no other (Model/GrpcPool.v: extra = 0, the hypothesis of
+   C20_pooled_object_is_the_line) *)
+Lemma instance_releases_once : extra_releases gen_instance_releases = Some 0%nat.
 Proof. vm_compute. reflexivity. Qed.
